@@ -320,3 +320,24 @@ PROPS["C19"] = dict(
     rule="cases = tensor elements (256 per tensor) of the two routes, factorisation reassemblies per method; non-trivial = "
          "non-zero exact element; distinct by (case, indices)",
 )
+
+PROPS["C10"] = dict(
+    level="proof",
+    paths=["C"],
+    translators=["omp.py"],
+    technique="Lean 4 theorems (the OpenMP pragma inventory regenerated from the C sources equals the reviewed list; index "
+              "disjointness of the row-partition and map-injective disciplines; batching arithmetic) + bitwise multi-thread / "
+              "multi-schedule / no-OpenMP differential run on exact integer data",
+    text="PARTIAL: the translator re-reads every #pragma omp (78 constructs) on each run and Lean checks the list against the "
+         "reviewed, classified list, so adding/moving/altering a parallel construct breaks an obligation; the two disciplines "
+         "that make the loops race free are proved at the index level (row partition; targets of one excitation map are "
+         "pairwise distinct, from C05). An actual interleaving cannot be exhibited by the model: independence of the thread "
+         "count is decided by running one battery over all accelerated kernels at 1/2/3/(5/8)/16 threads, static and dynamic "
+         "schedules, repeated, and in a build with OpenMP disabled; with integer-valued data all results must agree bitwise.",
+    note="Lean kernel; the classification of each loop into a discipline is by review (trusted), only the disciplines' index "
+         "arithmetic is proved; OpenMP runtime, compiler and hardware memory model are outside the model; ThreadSanitizer is "
+         "not usable (libgomp is not TSan-aware).",
+    design_ref="DESIGN.md §5 C10",
+    rule="cases = (configuration, result array) comparisons against the single-thread run; configurations = thread counts x "
+         "schedules x repetitions + the no-OpenMP build; every comparison distinct by (configuration, result name)",
+)
